@@ -75,6 +75,7 @@ def run(ctx):
     # clauses shared with other properties: TTLs only age (the cache's lifetime and hit rules), what a truncated relay may drop
     ctx.include("C06", rules=("R1", "R2", "R3", "R6"))
     ctx.include("C04", rules=("R3",))
+    ctx.include("C14", rules=("R10",))
     # ---------------- R1: reply assembled from (query, upstream reply)
     cands = fn_with_sig(P, ["DnsMessage", "DNSPkt"], "DNSPkt")
     n_r1 = 0
